@@ -153,7 +153,9 @@ func diffMap(old map[string]interface{}, newAny interface{}) interface{} {
 	// (stripped) __key field would fail on the client.
 	oldKey, oldHasKey := old["__key"]
 	newKey, newHasKey := new["__key"]
-	if oldHasKey != newHasKey || !comparableKey(oldKey) || !comparableKey(newKey) || oldKey != newKey {
+	oldKey, oldUsable := usableKey(oldKey)
+	newKey, newUsable := usableKey(newKey)
+	if oldHasKey != newHasKey || !oldUsable || !newUsable || oldKey != newKey {
 		return markReplaced(new)
 	}
 
@@ -185,9 +187,24 @@ func diffMap(old map[string]interface{}, newAny interface{}) interface{} {
 	return d
 }
 
-// comparableKey reports whether a __key value can be compared and hashed.
-func comparableKey(key interface{}) bool {
-	return key == nil || reflect.TypeOf(key).Comparable()
+// bytesKey stands for a __key that is a []byte (an object keyed by a binary
+// column) where keys are compared and hashed.
+type bytesKey string
+
+// usableKey returns a __key value in a form that can be compared and hashed,
+// and whether there is one: a []byte by its contents, a list or an object
+// not at all.
+func usableKey(key interface{}) (interface{}, bool) {
+	switch key := key.(type) {
+	case nil:
+		return nil, true
+	case []byte:
+		return bytesKey(key), true
+	}
+	if reflect.TypeOf(key).Comparable() {
+		return key, true
+	}
+	return nil, false
 }
 
 // reoderKey returns the key to use for a
@@ -197,11 +214,8 @@ func reorderKey(i interface{}) interface{} {
 	}
 	if object, ok := i.(map[string]interface{}); ok {
 		if key, ok := object["__key"]; ok {
-			if !comparableKey(key) {
-				// A list or an object (a client may alias any field as __key)
-				// identifies nothing.
-				return nil
-			}
+			// A list or an object identifies nothing.
+			key, _ := usableKey(key)
 			return key
 		}
 	}
